@@ -108,7 +108,7 @@ def gen_object(rng, idx):
         if rule:
             lines.append("RRULE:" + rule)
             if len(occ) > 1 and rng.random() < 0.4:
-                ex = rng.sample(occ[1:6], rng.randint(1, min(2, len(occ[1:6]))))
+                ex = rng.sample(occ[:6], rng.randint(1, min(2, len(occ[:6]) - 1)))
                 for x in sorted(ex):
                     lines.append(start_line("EXDATE", x, isdt))
                 occ = [t for t in occ if t not in ex]
@@ -170,9 +170,7 @@ def occ_for(o, fe):
     """occurrence starts relevant for a filter ending at fe (unbounded rules are expanded as far as needed)"""
     if not o["unbounded"]:
         return o["occ"]
-    s0, p = o["occ"][0], o["period"]
-    if o["ex"]:
-        base = o["occ_all0"]
+    s0, p = o["occ_all0"][0], o["period"]
     n = max(60, min(5000, (fe - s0) // p + 3)) if fe < TMAX else 60
     return [t for t in (s0 + i * p for i in range(n)) if t not in o["ex"]]
 
@@ -312,6 +310,16 @@ def function_level(ctx):
                         {"none": "no", "before": "preceding", "after": "following"}[extra], got, exp), dict(case, conjunct=extra), exp, got, finding=fid)
                 if a is not None and extra == "none" and a["match"] != got:
                     ctx.disagree("time_range_match vs model", case, got, a["match"])
+            # hull in the cache: for an unbounded rule it starts at the first real occurrence and never ends
+            if o["unbounded"] and o["kind"] != "VTODO":
+                try:
+                    hull = list(item.time_range)
+                except Exception as e:
+                    hull = repr(e)
+                exp_hull = [o["occ"][0], TMAX]
+                if hull != exp_hull:
+                    ctx.violation("the enclosing time range kept for the pre-selection shortcut is %s, the occurrences span %s" % (hull, exp_hull),
+                                  case, exp_hull, hull)
             # hull in the cache vs model
             if a is not None and not a.get("open") and not o["unbounded"] and a["hull"] is not None:
                 try:
